@@ -1,16 +1,17 @@
 CONSTANTS
   N = 3
   MaxCount = 2
-  MaxSize = 3
+  MaxSize = 2
   Fees <- FeesMC1
-  Sizes = {1, 2}
+  Sizes = {1}
   AccCosts = {0}
   Budgets = {0}
   QSets <- QSetsDef
   BiasTrim = FALSE
   FinalAt = 0
-  BigSize = 4
-  SetFees <- SetFeesMC
+  ScriptMix = 0
+  BigSize = 1
+  SetFees <- FeesMC1
 INIT Init
 NEXT NextMut
 VIEW View0
